@@ -20,6 +20,8 @@ MANIFEST = {
             "trailing run of non-emitting states after the last matched observation is accepted (the statement does not forbid it).",
     "technique": "bounded-exhaustive enumeration of inputs x configurations and of operation histories with a structural invariant on every result",
 }
+MANIFEST["text"] += " " + (
+    'Added after the seeding waves: the index must equal the last lattice column that holds a live emitting candidate (a fact of the lattice, not only of the returned path); traces of length 4 with an outlier in the middle; jump histories match / continue_with_distance / extend on the named graphs.')
 BUDGET = {"quick": 420, "thorough": 3000}
 RULE = ("states = path states inspected, transitions = path steps inspected, traces validated = results compared with the reference "
         "start-candidate rule; non-trivial = the match stopped early, is empty, or contains non-emitting states; outcomes = (index, "
